@@ -84,7 +84,13 @@ def build(ctx):
         r = 'None' if st != 'ok' else '(Some (%s, %d, %d, %d))' % (clist(str(ord(c)) for c in v[0]), v[1], v[2], v[3])
         cases.append(Case('(%s, %s, %s, %s)' % (clist(str(ord(c)) for c in x), ut, stt, r), d, key=x, nontrivial=len(x) >= 2))
     # non-strings must be rejected (no model needed: the statement is direct)
-    for x in [None, 5, 3.5, b'EKGS', ['E', 'K'], ('E',), StrSub('EKGS'), {'E': 1}, True]:
+    class _Spells(object):
+        def __str__(self):
+            return 'EKGS'
+    import numpy as _np
+    for x in [None, 5, 3.5, b'EKGS', ['E', 'K'], ('E',), StrSub('EKGS'), {'E': 1}, True,
+              # non-strings whose text happens to spell a word over the 20 letters
+              float('nan'), float('inf'), False, Ellipsis, _np.nan, _np.float64('inf'), _Spells(), _np.array('EKGS')]:
         st, v = _make(x)
         if st == 'ok' and not (x is None or x is True):     # None/True fall into the sequenceFile branch and fail there
             ctx.direct_failures.append({'input': repr(x), 'impl': [st, v], 'why': 'non-string accepted'})
